@@ -30,7 +30,7 @@ ANCHORS = [
     "acnportal.acnsim.models.evse:BaseEVSE.plugin",
     "acnportal.acnsim.models.evse:BaseEVSE.unplug",
 ]
-REQUIRED = ["runs_judged", "second_simulations_built_from_objects_of_the_first", "second_simulation_shares:events", "second_simulation_shares:network", "plug_events", "unplug_events", "regime:back-to-back-reuse", "regime:simultaneous-events",
+REQUIRED = ["runs_judged", "run_called_again_on_finished_simulations", "second_simulations_built_from_objects_of_the_first", "second_simulation_shares:events", "second_simulation_shares:network", "plug_events", "unplug_events", "regime:back-to-back-reuse", "regime:simultaneous-events",
             "regime:recompute-after-last-departure", "regime:one-period-session", "connectivity_runs", "second_runs_on_a_reused_queue", "regime:over-128-events-due-at-once", "sched:scripted",
             "sched:uncontrolled", "sched:sorted", "snapshots_checked", "runs_where_a_waiting_ev_took_over_a_freed_space", "simulators_built_on_an_empty_queue_filled_afterwards", "runs_with_all_events_beyond_period_100000", "runs_with_user_defined_arrival_events", "runs_where_the_scheduler_adds_the_next_arrival_from_inside_the_run"]
 BUDGET_S = {"quick": 240, "thorough": 3000}
@@ -174,6 +174,18 @@ def run_case(case, obs):
     if case.get("late_fill"):
         obs.ev("simulators_built_on_an_empty_queue_filled_afterwards")
     _judge(case, obs, d, sim, evs, probe)
+    if probe.exception is None and int(obs.case_hash[:4], 16) % 5 == 0:
+        # run() once more on the finished simulation (a notebook cell executed twice): it returns, and nothing is simulated again
+        before = (sim.iteration, len(sim.event_history), sorted(sim.ev_history), float(np.asarray(sim.charging_rates).sum()))
+        n_tr = len(probe.trace)
+        probe.attach()
+        exc2 = probe.run()
+        probe.detach()
+        after = (sim.iteration, len(sim.event_history), sorted(sim.ev_history), float(np.asarray(sim.charging_rates).sum()))
+        obs.ev("run_called_again_on_finished_simulations")
+        if exc2 is not None or before != after or len(probe.trace) != n_tr:
+            obs.violate("second_run_call_on_a_finished_simulation_did_something", f"exception {exc2!r}; (iteration, events, sessions, sum of rates) "
+                        f"{before} -> {after}; {len(probe.trace) - n_tr} more plug-in / unplug / scheduler / period steps traced", scenario=d)
     if case.get("second_life") and probe.exception is None and not d.get("hold_back"):
         # a second simulation in the same process, built from objects that already served the first: the very event objects (and
         # with them the EV objects, after their public reset() or as they are), the emptied network object, the scheduler object.
